@@ -94,7 +94,7 @@ def cop(op):
         body = '(OUpdateTable %s %s %s %s)' % (t, cdefs([(d['name'], d['type']) for d in op.get('attrs') or []]),
                                                copt(c, cindexdef), copt(op.get('delete'), cstr))
     elif o == 'clear_table': body = '(OClearTable %s)' % t
-    elif o == 'put': body = '(OPut %s %s %s %s %s)' % (t, citem(op.get('item')), cond, names, vals)
+    elif o == 'put': body = '(OPut %s %s %s %s %s %s)' % (t, citem(op.get('item')), cond, names, vals, cbool(op.get('return_old', False)))
     elif o == 'get': body = '(OGet %s %s %s %s)' % (t, citem(op.get('key')), names, cstr(op.get('projection') or ''))
     elif o == 'update':
         body = '(OUpdate %s %s %s %s %s %s %s)' % (t, citem(op.get('key')), cstr(op['expr']), cond, names, vals,
@@ -160,7 +160,7 @@ def cpayload(op, ob, sdk):
         return 'PNone'
     if o in ('get', 'update'):
         return '(PItem %s)' % citem(ob.get('item') or {})
-    if o == 'delete':
+    if o in ('delete', 'put'):
         return '(PItem %s)' % citem(ob['item']) if 'item' in ob else 'PNone'
     if o in ('query', 'scan'):
         return '(PItems %s %d %s)' % (clist([citem(i) for i in ob['items']]), ob['count'], citem(ob.get('lek') or {}))
